@@ -51,7 +51,7 @@ CHECKS = {
    technique="deterministic simulation: seeded token scheduler over real goroutines (race-detector-invisible) + Go race detector as happens-before judge + run-alone equivalence oracle"),
  "C06": dict(
    category="exploration",
-   text="SCOPED to storage faults on valid artifacts (DESIGN §5 C06): valid files from the real Encoder and from the reference writer (17 curated types + 7 wire schemas reaching every codec kind, 3 codecs + no-codec) are damaged by 1..3 faults per case — bit flips, byte overwrites, zeroed/junk sectors, ranges stored twice or lost, truncation, read errors, structure-aware rewrites of single encoded fields (17 varint classes incl. negative/zero/max/overflowing/unterminated varints; body classes; raw and consistent variants), header varint rewrites, schema-text damage — and read through ReadFile (full, projected and empty target) and Schema.Codec+Codec.Read/Skip on damaged block bodies. Every 12th (quick: 30th) plan ENUMERATES every (field site x class x variant) of its artifact. Oracle: no panic, no worker death, CPU budget, allocation <= 16 MiB + 1024 x (input + decompressed size).",
+   text="SCOPED to storage faults on valid artifacts (DESIGN §5 C06): valid files from the real Encoder and from the reference writer (17 curated types + 7 wire schemas reaching every codec kind, 3 codecs + no-codec) are damaged by 1..3 faults per case — bit flips, byte overwrites, zeroed/junk sectors, ranges stored twice or lost, truncation, read errors, structure-aware rewrites of single encoded fields (17 varint classes incl. negative/zero/max/overflowing/unterminated varints; body classes; raw and consistent variants), header varint rewrites, schema-text damage — and read through ReadFile (full, projected and empty target) and Schema.Codec+Codec.Read/Skip on damaged block bodies. Every 12th (quick: 30th) plan ENUMERATES every (field site x class x variant) of its artifact. Oracle: no panic, no worker death, CPU budget, allocation <= 16 MiB + 200 x (input + decompressed size).",
    design_ref="§5 C06",
    note="NOT covered: free-standing fuzzing of SchemaFromString, parseTime or Codec.Read with unrelated byte strings (pure functions of their input; not a simulation target). Known finding D11 (unbounded count of zero-width items) is recorded by input class in known_findings.json; a hang / OOM outside that input class is still reported.",
    technique="deterministic simulation: SimDisk stored-byte / torn-write / read-error faults and structure-aware single-field rewrites on valid artifacts; child-process workers with CPU and allocation oracles"),
